@@ -124,8 +124,8 @@ pub fn all() -> Vec<Prop> {
                 "bases with bytes before the header are excluded from the IncrementalDocument legs",
             ],
             batches: vec![
-                Batch { name: "foreign-history", scenario: crate::scen_c::c07_foreign_history, quick: 80000, thorough: 1200000, varies: "revision histories x who wrote each revision x loader completion order x source chunking" },
-                Batch { name: "lopdf-updates", scenario: crate::scen_c::c07_lopdf_updates, quick: 80000, thorough: 1200000, varies: "IncrementalDocument load/edit/save cycles x sink and source chunking/EINTR x loader completion order" },
+                Batch { name: "foreign-history", scenario: crate::scen_c::c07_foreign_history, quick: 50000, thorough: 800000, varies: "revision histories x who wrote each revision x loader completion order x source chunking" },
+                Batch { name: "lopdf-updates", scenario: crate::scen_c::c07_lopdf_updates, quick: 50000, thorough: 800000, varies: "IncrementalDocument load/edit/save cycles (a quarter with a failed attempt first) x sink and source chunking/EINTR x loader completion order" },
                 Batch { name: "foreign-on-lopdf", scenario: crate::scen_c::c07_foreign_on_lopdf, quick: 60000, thorough: 900000, varies: "lopdf-written base (chunking sink) extended by 1-2 revisions of the reference writer x loader completion order x source chunking" },
             ],
         },
